@@ -66,6 +66,14 @@ func JSONGetInt(val *fastjson.Value, prop string) int64 {
 	return i
 }
 
+// JSONGetUint reads an unsigned number; anything that is not one (negative, fractional, out of range) reads as 0
+func JSONGetUint(val *fastjson.Value, prop string) uint64 {
+	if !val.Exists(prop) {
+		return 0
+	}
+	return val.Get(prop).GetUint64()
+}
+
 func JSONGetFloat(val *fastjson.Value, prop string) float64 {
 	if !val.Exists(prop) {
 		return 0.0
@@ -572,7 +580,7 @@ func JSONLoadCollection(val *fastjson.Value, c *Collection) error {
 	c.Current = JSONGetItem(val, "current")
 	c.First = JSONGetItem(val, "first")
 	c.Last = JSONGetItem(val, "last")
-	c.TotalItems = uint(JSONGetInt(val, "totalItems"))
+	c.TotalItems = uint(JSONGetUint(val, "totalItems"))
 	c.Items = JSONGetItems(val, "items")
 	return OnObject(c, func(o *Object) error {
 		return JSONLoadObject(val, o)
@@ -592,7 +600,7 @@ func JSONLoadOrderedCollection(val *fastjson.Value, c *OrderedCollection) error 
 	c.Current = JSONGetItem(val, "current")
 	c.First = JSONGetItem(val, "first")
 	c.Last = JSONGetItem(val, "last")
-	c.TotalItems = uint(JSONGetInt(val, "totalItems"))
+	c.TotalItems = uint(JSONGetUint(val, "totalItems"))
 	c.OrderedItems = JSONGetItems(val, "orderedItems")
 	return OnObject(c, func(o *Object) error {
 		return JSONLoadObject(val, o)
@@ -603,7 +611,7 @@ func JSONLoadOrderedCollectionPage(val *fastjson.Value, c *OrderedCollectionPage
 	c.Next = JSONGetItem(val, "next")
 	c.Prev = JSONGetItem(val, "prev")
 	c.PartOf = JSONGetItem(val, "partOf")
-	c.StartIndex = uint(JSONGetInt(val, "startIndex"))
+	c.StartIndex = uint(JSONGetUint(val, "startIndex"))
 	return OnOrderedCollection(c, func(c *OrderedCollection) error {
 		return JSONLoadOrderedCollection(val, c)
 	})
@@ -650,10 +658,10 @@ func JSONLoadLink(val *fastjson.Value, l *Link) error {
 	l.Type = JSONGetType(val)
 	l.MediaType = JSONGetMimeType(val, "mediaType")
 	l.Preview = JSONGetItem(val, "preview")
-	if h := JSONGetInt(val, "height"); h != 0 {
+	if h := JSONGetUint(val, "height"); h != 0 {
 		l.Height = uint(h)
 	}
-	if w := JSONGetInt(val, "width"); w != 0 {
+	if w := JSONGetUint(val, "width"); w != 0 {
 		l.Width = uint(w)
 	}
 	l.Name = JSONGetNaturalLanguageField(val, "name")
